@@ -97,6 +97,37 @@ pub fn roundtrip(case: &Case) -> Verdict {
         }
         Err(e) => vfail!("encode-to-writer-error", "{e:?}"),
     }
+    // ... also into a sink that takes only a few bytes per call (a pipe or socket under back-pressure), and a sink
+    // that is full must be reported, not ignored
+    struct Short {
+        out: Vec<u8>,
+        per_call: usize,
+        room: usize,
+    }
+    impl std::io::Write for Short {
+        fn write(&mut self, b: &[u8]) -> std::io::Result<usize> {
+            let n = b.len().min(self.per_call).min(self.room);
+            self.out.extend_from_slice(&b[..n]);
+            self.room -= n;
+            Ok(n)
+        }
+        fn flush(&mut self) -> std::io::Result<()> {
+            Ok(())
+        }
+    }
+    let per_call = [1usize, 7, 64, 4096][case.repr.first().copied().unwrap_or(0) as usize % 4];
+    let mut sw = Short { out: vec![], per_call, room: usize::MAX };
+    match erltf::encode_to_writer(&t, &mut sw) {
+        Ok(()) if sw.out == enc => {}
+        Ok(()) => vfail!("encode-to-writer-differs", "a sink taking {per_call} bytes per call received {} of {} bytes and encode_to_writer returned Ok", sw.out.len(), enc.len()),
+        Err(e) => vfail!("encode-to-writer-error", "sink taking {per_call} bytes per call: {e:?}"),
+    }
+    if enc.len() > 1 {
+        let mut full = Short { out: vec![], per_call: 4096, room: enc.len() - 1 };
+        if erltf::encode_to_writer(&t, &mut full).is_ok() {
+            vfail!("encode-to-writer-differs", "a sink with room for {} of {} bytes: encode_to_writer returned Ok", enc.len() - 1, enc.len());
+        }
+    }
     // decoding twice is deterministic and clone is faithful
     if !identical(&t2, &t2.clone()) {
         vfail!("clone-differs", "clone differs");
